@@ -272,10 +272,10 @@ async fn spawn(engine: nu::Engine, store: Store, task: GeneratorTask) {
     let handle = tokio::runtime::Handle::current().clone();
 
     #[cfg(xs_verif)]
-    crate::verif::expect_thread("gen");
+    let verif_ticket = crate::verif::expect_thread("gen");
     std::thread::spawn(move || {
         #[cfg(xs_verif)]
-        let _verif_scope = crate::verif::thread_scope("gen");
+        let _verif_scope = crate::verif::thread_scope("gen", verif_ticket);
         #[cfg(xs_verif)]
         let (engine, input_pipeline, task, store, handle) =
             (engine, input_pipeline, task, store, handle);
